@@ -1,50 +1,503 @@
-"""Pointwise non-linear expressions (scattering magnitudes).  Filled in by the scattering stage."""
-from .errors import AnalysisError
-from .domain import HOOKS
+"""Pointwise non-linear expressions over linear fields (the scattering magnitudes and their gradients).
+
+A non-linear tensor is a DataT with ``nl = True`` whose cells are ``Sum`` objects: a normal form
+
+    Sum   = { Mono : coefficient in Q(sqrt 2) }
+    Mono  = { Atom : rational exponent }
+    Atom  = lin(terms)        a linear field (product terms with axis tables) on the cell's spatial grid
+          | param(name)       a symbolic real parameter (the magnitude bias b)
+          | sum(Sum)          a parenthesised sum raised to a power / used as a factor
+
+modulo commutativity / associativity of + and *, exponent arithmetic (sqrt = ^1/2, 1/x = ^-1) and merging of
+linear fields.  Two cells are the same function of the inputs (for all inputs, in real arithmetic, wherever
+defined) if their normal forms are equal.  Spatial linear primitives applied to a non-linear tensor re-base it:
+the tensor becomes a new Base whose definition is remembered, and analysis continues linearly over that base.
+"""
+from fractions import Fraction
+import itertools
+
+import numpy as np
+
+from .errors import AnalysisError, PyExc
+from .domain import HOOKS, DataT, Q2, ONE, ZERO, Term, Base, canon_cell, is_const_scalar
 
 
-class Param:
-    """A symbolic real parameter (the magnitude bias)."""
+class Atom:
+    __slots__ = ('kind', 'key', 'payload', '_h')
 
-    def __init__(self, name, positive=False, nonneg=True):
-        self.name, self.positive, self.nonneg = name, positive, nonneg
+    def __init__(self, kind, key, payload=None):
+        self.kind, self.key, self.payload = kind, key, payload
+        self._h = hash((kind, key))
+
+    def __eq__(self, o):
+        return isinstance(o, Atom) and self.kind == o.kind and self.key == o.key
+
+    def __hash__(self):
+        return self._h
 
     def __repr__(self):
-        return self.name
+        if self.kind == 'param':
+            return self.key
+        if self.kind == 'lin':
+            return 'lin#%x' % (hash(self.key) & 0xffff)
+        return '(%r)' % (self.payload,)
+
+
+def lin_atom(terms):
+    terms = tuple(t for t in terms if not t.is_zero())
+    return Atom('lin', canon_cell(terms), terms)
+
+
+def param_atom(name):
+    return Atom('param', name)
+
+
+class Sum:
+    """normal form; immutable"""
+    __slots__ = ('d', '_h')
+
+    def __init__(self, d):
+        self.d = {m: c for m, c in d.items() if not c.is_zero()}
+        self._h = None
+
+    def __eq__(self, o):
+        return isinstance(o, Sum) and self.d == o.d
+
+    def __hash__(self):
+        if self._h is None:
+            self._h = hash(frozenset(self.d.items()))
+        return self._h
+
+    def is_zero(self):
+        return not self.d
+
+    def single(self):
+        if len(self.d) == 1:
+            return next(iter(self.d.items()))
+        return None
+
+    def is_const(self):
+        return all(len(m) == 0 for m in self.d)
+
+    def atoms(self):
+        out = set()
+        for m in self.d:
+            for a, e in m:
+                out.add(a)
+                if a.kind == 'sum':
+                    out |= a.payload.atoms()
+        return out
+
+    def __repr__(self):
+        if not self.d:
+            return '0'
+        parts = []
+        for m, c in sorted(self.d.items(), key=lambda kv: repr(sorted(map(repr, kv[0])))):
+            fs = '*'.join(('%r' % a) + ('' if e == 1 else '^%s' % e) for a, e in sorted(m, key=lambda ae: repr(ae[0])))
+            parts.append(('%r*' % c if c != ONE or not fs else '') + (fs or ''))
+        return ' + '.join(parts)
+
+
+EMPTY = frozenset()
+
+
+def s_const(c):
+    c = Q2.of(c)
+    return Sum({EMPTY: c})
+
+
+def s_atom(a, e=1):
+    return Sum({frozenset([(a, Fraction(e))]): ONE})
+
+
+def s_param(name):
+    return s_atom(param_atom(name))
+
+
+def s_lin(terms):
+    a = lin_atom(terms)
+    if not a.payload:
+        return Sum({})
+    return s_atom(a)
+
+
+def _merge_lin(d):
+    """merge all monomials that are a bare linear field into one linear field"""
+    lin = [(m, c) for m, c in d.items() if len(m) == 1 and next(iter(m))[0].kind == 'lin' and next(iter(m))[1] == 1]
+    if len(lin) <= 1 and all(c == ONE for _, c in lin):
+        return d
+    terms = []
+    for m, c in lin:
+        a = next(iter(m))[0]
+        terms.extend(t.scaled(c) for t in a.payload)
+        del d[m]
+    a = lin_atom(terms)
+    if a.payload:
+        d[frozenset([(a, Fraction(1))])] = ONE
+    return d
+
+
+def s_add(a, b, sign=1):
+    d = dict(a.d)
+    for m, c in b.d.items():
+        c = c if sign == 1 else -c
+        v = d.get(m)
+        v = c if v is None else v + c
+        if v.is_zero():
+            d.pop(m, None)
+        else:
+            d[m] = v
+    return Sum(_merge_lin(d))
+
+
+def s_scale(a, c):
+    c = Q2.of(c)
+    if c.is_zero():
+        return Sum({})
+    d = {m: v * c for m, v in a.d.items()}
+    return Sum(_merge_lin(d) if any(v != ONE for v in d.values()) else d)
+
+
+def _mono_mul(m1, m2):
+    d = dict(m1)
+    for a, e in m2:
+        v = d.get(a, 0) + e
+        if v == 0:
+            d.pop(a, None)
+        else:
+            d[a] = v
+    return frozenset(d.items())
+
+
+def _as_factor(s):
+    """(mono, coef) usable as a factor"""
+    one = s.single()
+    if one is not None:
+        return one
+    if s.is_zero():
+        return None
+    return frozenset([(Atom('sum', s, s), Fraction(1))]), ONE
+
+
+def s_mul(a, b):
+    fa, fb = _as_factor(a), _as_factor(b)
+    if fa is None or fb is None:
+        return Sum({})
+    # distribute a constant or a single monomial over a sum only when one side is constant
+    if a.is_const() and a.single() is not None:
+        return s_scale(b, a.single()[1])
+    if b.is_const() and b.single() is not None:
+        return s_scale(a, b.single()[1])
+    return Sum({_mono_mul(fa[0], fb[0]): fa[1] * fb[1]})
+
+
+def _coef_pow(c, e):
+    if c == ONE:
+        return ONE
+    if e.denominator == 1:
+        n = int(e)
+        if n >= 0:
+            return c ** n
+        return c.inv() ** (-n)
+    if c.b == 0 and c.a > 0:
+        # rational perfect powers only
+        num, den = c.a.numerator, c.a.denominator
+        rn, rd = round(num ** (1 / e.denominator)), round(den ** (1 / e.denominator))
+        if rn ** e.denominator == num and rd ** e.denominator == den:
+            return _coef_pow(Q2(Fraction(rn, rd)), Fraction(e.numerator))
+    return None
+
+
+def s_pow(a, e):
+    e = Fraction(e)
+    if e == 1:
+        return a
+    if e == 0:
+        return s_const(1)
+    one = a.single()
+    if one is not None:
+        m, c = one
+        cp = _coef_pow(c, e)
+        if cp is not None:
+            return Sum({frozenset((at, ex * e) for at, ex in m): cp})
+    if a.is_zero():
+        if e > 0:
+            return Sum({})
+        raise PyExc('ZeroDivisionError', 'division by a tensor that is identically zero')
+    return Sum({frozenset([(Atom('sum', a, a), e)]): ONE})
+
+
+# ----------------------------------------------------------------- parameters
+class Param:
+    """symbolic real scalar usable in Python arithmetic of the analysed code (magbias)"""
+
+    def __init__(self, name=None, expr=None, positive=True):
+        self.expr = expr if expr is not None else s_param(name)
+        self.name = name
+        self.positive = positive
+
+    def _wrap(self, o):
+        if isinstance(o, Param):
+            return o.expr
+        if is_const_scalar(o) or isinstance(o, Q2):
+            return s_const(o)
+        return None
+
+    def __add__(self, o):
+        if isinstance(o, DataT):
+            return pointwise('add', self, o)
+        w = self._wrap(o)
+        return NotImplemented if w is None else Param(expr=s_add(self.expr, w))
+    __radd__ = __add__
+
+    def __sub__(self, o):
+        if isinstance(o, DataT):
+            return pointwise('sub', self, o)
+        w = self._wrap(o)
+        return NotImplemented if w is None else Param(expr=s_add(self.expr, w, -1))
+
+    def __rsub__(self, o):
+        if isinstance(o, DataT):
+            return pointwise('sub', o, self)
+        w = self._wrap(o)
+        return NotImplemented if w is None else Param(expr=s_add(w, self.expr, -1))
+
+    def __mul__(self, o):
+        if isinstance(o, DataT):
+            return pointwise('mul', self, o)
+        w = self._wrap(o)
+        return NotImplemented if w is None else Param(expr=s_mul(self.expr, w))
+    __rmul__ = __mul__
+
+    def __truediv__(self, o):
+        if isinstance(o, DataT):
+            return pointwise('div', self, o)
+        w = self._wrap(o)
+        return NotImplemented if w is None else Param(expr=s_mul(self.expr, s_pow(w, -1)))
+
+    def __rtruediv__(self, o):
+        w = self._wrap(o)
+        return NotImplemented if w is None else Param(expr=s_mul(w, s_pow(self.expr, -1)))
+
+    def __pow__(self, n):
+        if isinstance(n, (int, Fraction)) or (isinstance(n, float) and Fraction(n).denominator <= 4):
+            return Param(expr=s_pow(self.expr, Fraction(n)))
+        return NotImplemented
+
+    def __neg__(self):
+        return Param(expr=s_scale(self.expr, -1))
+
+    def __bool__(self):
+        raise AnalysisError('unsupported', 'control flow on the symbolic magnitude bias')
+
+    def __repr__(self):
+        return 'Param(%r)' % (self.expr,)
 
 
 def is_param(x):
-    return isinstance(x, (Param, ParamExpr))
+    return isinstance(x, Param)
 
 
-class ParamExpr:
-    def __init__(self, op, args):
-        self.op, self.args = op, args
-
-
+# ------------------------------------------------------------------- tensors
 def _violation(op):
     from .ops import DomainViolation
     return DomainViolation('R-LIN', 'non-linear pointwise operation (%s) on a data path' % op)
 
 
+def to_nl(t):
+    if getattr(t, 'nl', False):
+        return t
+    cells = np.empty(t.cells.shape, dtype=object)
+    for idx in np.ndindex(*cells.shape):
+        cells[idx] = s_lin(t.cells[idx])
+    r = DataT(t.dims, cells, dtype=t.dtype, origin='fresh', device=t.device)
+    r.nl = True
+    r.requires_grad = t.requires_grad
+    r.contig = t.contig
+    return r
+
+
+def from_nl_if_linear(t):
+    """convert back when every cell is a (scaled) linear field"""
+    cells = np.empty(t.cells.shape, dtype=object)
+    for idx in np.ndindex(*cells.shape):
+        s = t.cells[idx]
+        if s.is_zero():
+            cells[idx] = ()
+            continue
+        one = s.single()
+        if one is None:
+            return t
+        m, c = one
+        if len(m) != 1:
+            return t
+        (a, e), = tuple(m)
+        if a.kind != 'lin' or e != 1:
+            return t
+        cells[idx] = tuple(x.scaled(c) for x in a.payload)
+    r = DataT(t.dims, cells, dtype=t.dtype, origin='fresh', device=t.device)
+    r.requires_grad = t.requires_grad
+    r.contig = t.contig
+    return r
+
+
+def _operand(x):
+    """-> ('tensor', DataT nl) | ('scalar', Sum)"""
+    if isinstance(x, DataT):
+        return 'tensor', to_nl(x)
+    if isinstance(x, Param):
+        return 'scalar', x.expr
+    if is_const_scalar(x) or isinstance(x, Q2):
+        return 'scalar', s_const(x)
+    raise AnalysisError('unsupported', 'operand of type %s in a pointwise expression' % type(x).__name__)
+
+
+def _binary(fn, a, b):
+    ka, va = _operand(a)
+    kb, vb = _operand(b)
+    if ka == 'scalar' and kb == 'scalar':
+        return Param(expr=fn(va, vb))
+    if ka == 'tensor' and kb == 'tensor':
+        dims = DataT.broadcast_pair(va, vb)
+        ca = _bcast_cells(va, dims)
+        cb = _bcast_cells(vb, dims)
+        cells = np.empty(ca.shape, dtype=object)
+        cache = {}
+        for idx in np.ndindex(*cells.shape):
+            k = (id(ca[idx]), id(cb[idx]))
+            r = cache.get(k)
+            if r is None:
+                r = (fn(ca[idx], cb[idx]), ca[idx], cb[idx])
+                cache[k] = r
+            cells[idx] = r[0]
+        ref = va
+    else:
+        t, s = (va, vb) if ka == 'tensor' else (vb, va)
+        dims = t.dims
+        cells = np.empty(t.cells.shape, dtype=object)
+        cache = {}
+        for idx in np.ndindex(*cells.shape):
+            c = t.cells[idx]
+            r = cache.get(id(c))
+            if r is None:
+                r = (fn(c, s) if ka == 'tensor' else fn(s, c), c)
+                cache[id(c)] = r
+            cells[idx] = r[0]
+        ref = t
+    r = DataT(dims, cells, dtype=ref.dtype, origin='fresh', device=ref.device)
+    r.nl = True
+    r.requires_grad = getattr(a, 'requires_grad', False) or getattr(b, 'requires_grad', False)
+    return from_nl_if_linear(r)
+
+
+def _bcast_cells(t, dims):
+    sd = list(t.dims)
+    pad = len(dims) - len(sd)
+    cells = t.cells.reshape((1,) * pad + t.cells.shape)
+    sd = [('E', 1)] * pad + sd
+    tgt = []
+    for (k, s), (tk, ts) in zip(sd, dims):
+        if tk == 'E':
+            tgt.append(ts)
+    return np.broadcast_to(cells, tuple(tgt))
+
+
 def pointwise(op, *args):
     if not HOOKS['allow_nl']:
+        # linear contexts still need products with constants etc.; those never reach here
         raise _violation(op)
-    raise AnalysisError('unsupported', 'non-linear expression engine not available for %s' % op)
+    if op == 'add':
+        return _binary(lambda x, y: s_add(x, y), args[0], args[1])
+    if op == 'sub':
+        return _binary(lambda x, y: s_add(x, y, -1), args[0], args[1])
+    if op == 'mul':
+        return _binary(s_mul, args[0], args[1])
+    if op == 'div':
+        return _binary(lambda x, y: s_mul(x, s_pow(y, -1)), args[0], args[1])
+    if op == 'neg':
+        return _binary(s_mul, args[0], -1)
+    if op == 'pow':
+        n = args[1]
+        if isinstance(n, float) and Fraction(n).denominator <= 8:
+            n = Fraction(n)
+        if not isinstance(n, (int, Fraction)):
+            raise AnalysisError('unsupported', 'power with exponent %r' % (n,))
+        return _unary(lambda x: s_pow(x, n), args[0])
+    if op == 'sqrt':
+        return _unary(lambda x: s_pow(x, Fraction(1, 2)), args[0])
+    # anything else is outside the expression vocabulary of the scattering specification
+    return _unary(lambda x: Sum({frozenset([(Atom('sum', ('op', op, x, tuple(repr(a) for a in args[1:])), x), Fraction(1))]): ONE}),
+                  args[0])
 
 
-def rebase(x):
-    raise AnalysisError('unsupported', 'rebase of non-linear tensor')
-
-
-def cat(tensors, dim):
-    raise AnalysisError('unsupported', 'cat of non-linear tensors')
-
-
-def stack(tensors, dim):
-    raise AnalysisError('unsupported', 'stack of non-linear tensors')
+def _unary(fn, a):
+    k, v = _operand(a)
+    if k == 'scalar':
+        return Param(expr=fn(v))
+    cells = np.empty(v.cells.shape, dtype=object)
+    cache = {}
+    for idx in np.ndindex(*cells.shape):
+        c = v.cells[idx]
+        r = cache.get(id(c))
+        if r is None:
+            r = (fn(c), c)
+            cache[id(c)] = r
+        cells[idx] = r[0]
+    r = DataT(v.dims, cells, dtype=v.dtype, origin='fresh', device=v.device)
+    r.nl = True
+    r.requires_grad = getattr(a, 'requires_grad', False)
+    return from_nl_if_linear(r)
 
 
 def reduce(name, t, *a, **k):
     from .ops import DomainViolation
     raise DomainViolation('R-LIN', 'reduction %s() over tensor contents on a data path' % name)
+
+
+REBASED = {}        # base id -> the non-linear tensor it stands for
+
+
+def rebase(x):
+    """continue linearly over a fresh base that stands for the non-linear tensor x"""
+    x = from_nl_if_linear(x)
+    if not getattr(x, 'nl', False):
+        return x
+    b = Base('nl%d' % len(REBASED), x.dims, dtype=x.dtype, role='rebased', defn=x)
+    REBASED[b.id] = x
+    t = b.tensor(origin='fresh')
+    t.requires_grad = x.requires_grad
+    t.base_of = None
+    return t
+
+
+def cat(tensors, dim):
+    from . import ops
+    ts = [to_nl(t) for t in tensors]
+    n = ts[0].ndim
+    d = dim % n
+    if any(t.dims[d][0] != 'E' for t in ts):
+        ts2 = [rebase(t) for t in ts]
+        return ops.cat(ts2, dim)
+    for i in range(n):
+        if i != d and any(t.dims[i] != ts[0].dims[i] for t in ts):
+            raise PyExc('RuntimeError', 'Sizes of tensors must match except in dimension %d' % d)
+    ax = sum(1 for k, _ in ts[0].dims[:d] if k == 'E')
+    cells = np.concatenate([t.cells for t in ts], axis=ax)
+    dims = list(ts[0].dims)
+    dims[d] = ('E', sum(t.dims[d][1] for t in ts))
+    r = DataT(dims, cells, dtype=ts[0].dtype, origin='fresh', device=ts[0].device)
+    r.nl = True
+    return from_nl_if_linear(r)
+
+
+def stack(tensors, dim):
+    ts = [to_nl(t) for t in tensors]
+    n = ts[0].ndim + 1
+    d = dim % n
+    ax = sum(1 for k, _ in ts[0].dims[:d] if k == 'E')
+    cells = np.stack([t.cells for t in ts], axis=ax)
+    dims = list(ts[0].dims)
+    dims.insert(d, ('E', len(ts)))
+    r = DataT(dims, cells, dtype=ts[0].dtype, origin='fresh', device=ts[0].device)
+    r.nl = True
+    return from_nl_if_linear(r)
